@@ -24,6 +24,7 @@ func TestMain(m *testing.M) {
 	vh.Rule("rapid: same (type,width,value) domain as C04; for each value the library's DataType.Bytes must equal the independent reference encoding byte for byte (numeric: same sign byte and same magnitude after stripping leading zero bytes) and DataType.GoValue of the reference encoding must give back the value (classic temporal types: to within the millisecond resolution of the decoded time); fixed vectors from the ASE documentation (type minima/maxima, epochs); exhaustive: every day of years 1..9999 for the calendar helpers DurationFromDateTime / TimeToMicroseconds / MicrosecondsToTime against own civil-date arithmetic (Hinnant), inverse and additivity. Non-trivial: the reference encoding is not all-zero bytes; distinct by (type,width,value)")
 	vh.Assume("the reference codec is my reading of TDS 5.0 (little endian as announced in the login record), anchored by documented vectors; smalldatetime values are exact minutes here (the rounding rule for seconds is not part of the layout)")
 	vh.Rule("also: batches of 2..8 values converted in goroutines at the same time (separate race-detector run)")
+	vh.Rule("also: the Go value printed before it is encoded and encoded a second time (a third of the cases); UNITEXT with NUL inside the text")
 	vh.Main(m, "C05")
 }
 
